@@ -34,20 +34,29 @@ EXPECTED_JSON = os.path.join(HERE, 'translate_expected.json')
 ALLOWED_AXIOMS = {'propext', 'Classical.choice', 'Quot.sound'}
 NS = 'Bnum.Generated.Deleg'
 
-TACTIC = r'''/-- the ONE generic proof script of every generated theorem (argument: the model constant on the left-hand side):
-    definitional unfolding first; if the elaborator cannot see through two differently compiled `match`es on a stuck
-    scrutinee, unfold the model constant and the `Outcome` combinators, rewrite the model's synonyms (`alias_*` above)
-    and case-split on whatever is stuck -/
-macro "deleg_tac " f:ident : tactic => `(tactic| first
+SIMPSET = '''Bool.and_true, Bool.true_and, Bool.and_false, Bool.false_and,
+        Bool.or_true, Bool.true_or, Bool.or_false, Bool.false_or, Bool.not_true, Bool.not_false, Bool.false_eq_true,
+        Bool.true_eq_false, Bool.and_eq_true, Bool.or_eq_true, Bool.not_eq_true', beq_iff_eq, bne_iff_ne, ne_eq,
+        decide_eq_true_eq, beq_self_eq_true, not_true_eq_false, not_false_eq_true, and_true, true_and, and_false,
+        false_and, and_self, or_true, true_or, or_false, false_or, or_self, not_and, not_or, imp_self, implies_true,
+        Bnum.Outcome.ok.injEq, Option.some.injEq, Prod.mk.injEq, forall_eq, forall_eq', imp_false, reduceCtorEq'''
+
+TACTIC = r'''/-- the ONE generic proof script of every generated theorem.  Arguments: the model constant on the left-hand side, then
+    (computed from the dumped reference graph of the model, never written by hand) the model-internal helper
+    definitions it is built from and that the translated Rust body does not mention.
+    1. definitional unfolding; 2. the same after unfolding the model constant; 3. if the elaborator cannot see through two
+    differently compiled `match`es on a stuck scrutinee: unfold the `Outcome` combinators, rewrite the model's synonyms
+    (`alias_*` above) and case-split on whatever is stuck; 4. as 3. with the helper definitions unfolded too. -/
+macro "deleg_tac " f:ident hs:ident* : tactic => `(tactic| first
   | rfl
   | (unfold $f; rfl)
   | (unfold $f
      try simp only [ALIASES Bnum.Outcome.expect, Bnum.Outcome.bind, Bnum.Outcome.map]
-     repeat' (first | rfl | (split <;> try simp_all only [Bool.and_true, Bool.true_and, Bool.and_false, Bool.false_and,
-        Bool.or_true, Bool.true_or, Bool.or_false, Bool.false_or, Bool.not_true, Bool.not_false, Bool.false_eq_true,
-        Bool.true_eq_false, Bool.and_eq_true, Bool.or_eq_true, Bool.not_eq_true', beq_iff_eq, bne_iff_ne, ne_eq,
-        decide_eq_true_eq, beq_self_eq_true, not_true_eq_false, not_false_eq_true, and_true, true_and, and_false,
-        false_and, and_self, or_true, true_or, or_false, false_or, or_self, not_and, not_or, imp_self, implies_true]))) )'''
+     repeat' (first | rfl | (split <;> try simp_all only [SIMPSET]))
+     done)
+  | (simp only [$f:ident, $[$hs:ident],*, ALIASES Bnum.Outcome.expect, Bnum.Outcome.bind, Bnum.Outcome.map]
+     repeat' (first | rfl | (split <;> try simp_all only [SIMPSET]))
+     done) )'''.replace('SIMPSET', SIMPSET)
 
 # ------------------------------------------------------------------------------------------------ tables
 def load_tables():
@@ -74,14 +83,14 @@ def dump_sigs():
     sigs = {}
     for line in out.stdout.splitlines():
         parts = line.split('\t')
-        if len(parts) != 4: continue
-        name, mod, binders, ret = parts
+        if len(parts) != 6: continue
+        name, mod, binders, ret, used, kind = parts
         ps = []
         for b in binders.split(';'):
             if not b: continue
             bi = b[0]; nm, _, ty = b[1:].partition(':')
             ps.append([bi, nm, ty])
-        sigs[name] = {'module': mod, 'params': ps, 'ret': ret}
+        sigs[name] = {'module': mod, 'params': ps, 'ret': ret, 'uses': sorted(set(u for u in used.split(';') if u)), 'kind': kind}
     with open(SIGS_JSON, 'w') as fh:
         json.dump(sigs, fh, indent=0, sort_keys=True)
     print('wrote %s (%d constants)' % (SIGS_JSON, len(sigs)))
@@ -109,7 +118,8 @@ def analyse(src):
         if dup_differs:
             r.update(status='unsupported', reason='several differing definitions for one key (cfg variants)')
             continue
-        c = sy.lean_for_key(key)
+        ent = sy.lookup(key)
+        c = ent['lean'] if ent else None
         if c is None:
             r.update(status='nomodel', reason='no model constant mapped to this function')
             continue
@@ -118,9 +128,12 @@ def analyse(src):
             continue
         r['lean'] = c
         try:
-            t = tr_core.Translator(tb, sy, f, c)
+            t = tr_core.Translator(tb, sy, f, c, ent['pre'], ent['post'])
             out = t.translate_fn()
-            r.update(status='ok', **out)
+            if out['lhs'].replace('(', '').replace(')', '') == out['rhs'].replace('(', '').replace(')', ''):
+                r.update(status='trivial', reason='model constant and translated body coincide syntactically (same constant models caller and callee, or direct recursion): no theorem')
+            else:
+                r.update(status='ok', **out)
         except Unsupported as e:
             r.update(status='unsupported', reason=str(e))
         except Unresolved as e:
@@ -129,6 +142,8 @@ def analyse(src):
             r.update(status='unsupported', reason='parse: %s' % e)
         except tr_lex.MacroError as e:
             r.update(status='unsupported', reason='macro: %s' % e)
+    for r in results.values():
+        if r['status'] == 'ok': r['helpers'] = helpers_of(sy, r)
     # theorem names must be unique
     seen = {}
     for key, r in results.items():
@@ -136,6 +151,27 @@ def analyse(src):
             r['thm'] += '_' + hashlib.sha1(key.encode()).hexdigest()[:6]
         seen[r['thm']] = key
     return results, crate, sy
+
+def helpers_of(sy, r):
+    """model-internal definitions (reference graph of the model, depth <= 2 from the left-hand constant) that the translated
+    Rust body does not mention; plus the `Ops.buint` / `Ops.bint` records when they occur"""
+    rhs_consts = set(r['consts']) - {r['lean']}
+    skip = set(sy.aliases) | set(sy.aliases.values())
+    out = []
+    frontier = [r['lean']]
+    for depth in range(2):
+        nxt = []
+        for c in frontier:
+            for u in sy.sigs.get(c, {}).get('uses', []):
+                s2 = sy.sigs.get(u)
+                if s2 is None or s2.get('kind') != 'def': continue
+                if u in rhs_consts or u in skip or u in out or u == r['lean']: continue
+                if u.startswith('Bnum.Outcome.') or u in ('Bnum.tupleToOption',): continue
+                out.append(u); nxt.append(u)
+        frontier = nxt
+    for c in ('Bnum.Ops.buint', 'Bnum.Ops.bint'):
+        if c in r['consts'] and c not in out: out.append(c)
+    return out
 
 CTX_ORDER = ['dbg', 'e', 'bw', 'w', 'n']
 CTX_TYPES = {'dbg': 'Bool', 'e': 'Bool', 'bw': 'Nat', 'w': 'Nat', 'n': 'Nat'}
@@ -147,7 +183,7 @@ def theorem_text(r):
     for nm, lty, _ in r['binders']:
         bs += ' (%s : %s)' % (nm, lty)
     doc = '/-- `%s` — %s:%d (%s) -/' % (r['key'], r['file'], r['line'], r['impl'])
-    return '%s\ntheorem %s%s :\n    %s\n    = %s := by deleg_tac %s\n' % (doc, r['thm'], bs, r['lhs'], r['rhs'], r['lean'])
+    return '%s\ntheorem %s%s :\n    %s\n    = %s := by deleg_tac %s\n' % (doc, r['thm'], bs, r['lhs'], r['rhs'], ' '.join([r['lean']] + r.get('helpers', [])))
 
 def generate(results, sy, exclude=()):
     """write Deleg.lean; -> (line ranges: [(first, last, key)], names)"""
@@ -168,6 +204,14 @@ def generate(results, sy, exclude=()):
             if c in sy.sigs: mods.add(sy.sigs[c]['module'])
     for m in sorted(mods): lines.append('import %s' % m)
     lines.append('namespace %s' % NS)
+    lines.append('')
+    lines.append('/-! the monad laws of `Outcome` that the translator applies when it sequences a panicking sub-expression -/')
+    lines.append('theorem law_bind_ok {α β : Type} (a : α) (k : α → Bnum.Outcome β) : Bnum.Outcome.bind (.ok a) k = k a := rfl')
+    lines.append('theorem law_bind_panic {α β : Type} (k : α → Bnum.Outcome β) : Bnum.Outcome.bind .panic k = .panic := rfl')
+    lines.append('theorem law_bind_ite {α β : Type} (c : Prop) [Decidable c] (x y : Bnum.Outcome α) (k : α → Bnum.Outcome β) :')
+    lines.append('    Bnum.Outcome.bind (if c then x else y) k = if c then Bnum.Outcome.bind x k else Bnum.Outcome.bind y k := by split <;> rfl')
+    lines.append('theorem law_bind_assoc {α β γ : Type} (m : Bnum.Outcome α) (f : α → Bnum.Outcome β) (g : β → Bnum.Outcome γ) :')
+    lines.append('    Bnum.Outcome.bind (Bnum.Outcome.bind m f) g = Bnum.Outcome.bind m (fun x => Bnum.Outcome.bind (f x) g) := by cases m <;> rfl')
     lines.append('')
     alias_names = []
     for i, (a, b) in enumerate(sorted(sy.aliases.items())):
@@ -209,20 +253,23 @@ def generate(results, sy, exclude=()):
         with open(GEN_FILE, 'w') as fh: fh.write(new)
     return ranges, names, sorted(mods), ax_first
 
-MSG_RE = re.compile(r'^(?P<file>[^:\n]+\.lean):(?P<line>\d+):(?P<col>\d+): (?P<sev>error|warning|info): ?(?P<msg>.*)$')
+MSG_RE = re.compile(r'^(?:(?P<sev0>error|warning|info): )?(?P<file>[^:\n]+\.lean):(?P<line>\d+):(?P<col>\d+):(?: (?P<sev>error|warning|info):)? ?(?P<msg>.*)$')
+AX_LINE = re.compile(r"^'[^']+' (depends on axioms|does not depend on any axioms)")
 
 def run_lean(mods):
-    """elaborate the generated file; -> (messages [(line, sev, text)], returncode, raw)"""
-    subprocess.run(['lake', 'build'] + mods, cwd=LEAN_DIR, stdout=subprocess.PIPE, stderr=subprocess.STDOUT)
-    p = subprocess.run(['lake', 'env', 'lean', os.path.relpath(GEN_FILE, LEAN_DIR)], cwd=LEAN_DIR,
+    """`lake build Bnum.Generated.Deleg` (Lake replays the log of an up-to-date module, so the `#print axioms` output is
+    always there); -> (messages [(line, sev, text)], returncode, raw)"""
+    p = subprocess.run(['lake', 'build', 'Bnum.Generated.Deleg'], cwd=LEAN_DIR,
                        stdout=subprocess.PIPE, stderr=subprocess.STDOUT, text=True)
     msgs = []
     cur = None
     for line in p.stdout.splitlines():
         m = MSG_RE.match(line)
-        if m:
-            cur = [int(m.group('line')), m.group('sev'), m.group('msg')]
+        if m and m.group('file').endswith('Deleg.lean'):
+            cur = [int(m.group('line')), m.group('sev0') or m.group('sev') or 'error', m.group('msg')]
             msgs.append(cur)
+        elif AX_LINE.match(line) or line.startswith(('ℹ', '✖', '✔', '⚠', 'Build completed', 'error: Lean exited', 'Some required', '- ')):
+            cur = None
         elif cur is not None:
             cur[2] += '\n' + line
     return msgs, p.returncode, p.stdout
@@ -236,15 +283,11 @@ def check_generated(results, sy):
         newfail = {}
         axioms = {}
         stray = []
+        for m in re.finditer(r"'([^'\n]+)' depends on axioms: \[([^\]]*)\]", raw):
+            axioms[m.group(1)] = set(a.strip() for a in m.group(2).replace('\n', ' ').split(',') if a.strip())
+        for m in re.finditer(r"'([^'\n]+)' does not depend on any axioms", raw):
+            axioms[m.group(1)] = set()
         for line, sev, msg in msgs:
-            if line >= ax_first:
-                m = re.match(r"'([^']+)' depends on axioms: \[(.*)\]", msg.replace('\n', ' '))
-                if m:
-                    axioms[m.group(1)] = set(a.strip() for a in m.group(2).split(',') if a.strip())
-                    continue
-                m = re.match(r"'([^']+)' does not depend on any axioms", msg)
-                if m:
-                    axioms[m.group(1)] = set(); continue
             if sev == 'error' or (sev == 'warning' and 'sorry' in msg):
                 hit = None
                 for a, b, key in ranges:
@@ -278,8 +321,6 @@ def cmd_check(args):
     results, crate, sy = analyse(args.src)
     names, failed, bad_ax, raw = check_generated(results, sy)
     # final library build of the (now clean) generated file
-    b = subprocess.run(['lake', 'build', 'Bnum.Generated.Deleg'], cwd=LEAN_DIR, stdout=subprocess.PIPE,
-                       stderr=subprocess.STDOUT, text=True)
     byname = {r['thm']: r for r in results.values()}
     tied = []
     if names is not None:
@@ -315,7 +356,6 @@ def cmd_check(args):
                         'detail': failed[k]} for k in failed if results[k]['thm'] not in exp_names]
     out = {'tied': tied, 'broken': broken, 'new': new, 'wall_s': round(time.time() - t0, 1)}
     if unexpected_fail: out['untied_new_failures'] = unexpected_fail
-    if b.returncode != 0: out['lake_build'] = b.stdout[-800:]
     if crate.errors: out['frontend_errors'] = ['%s: %s' % e for e in crate.errors]
     print(json.dumps(out))
     return 0
